@@ -164,7 +164,7 @@ class C02:
     @staticmethod
     def generate(S, tier):
         rng = S.rng
-        Ls = [0, 1, 2, 3, 10] if tier == "quick" else [0, 1, 2, 3, 4, 5, 10, 17, 32, 64, 100]
+        Ls = [0, 1, 2, 3, 10, 35] if tier == "quick" else [0, 1, 2, 3, 4, 5, 10, 17, 32, 33, 35, 63, 64, 65, 70, 100]
         nflip = 2 if tier == "quick" else 8
         stats = {"L": Ls, "mutations": {}, "bitflip_sigs": 0}
         def cnt(k, n=1): stats["mutations"][k] = stats["mutations"].get(k, 0) + n
@@ -179,6 +179,16 @@ class C02:
                 base = (suite, tb(f["pk"]), tb(f["sig"]))
                 for kind, m2 in msg_mutations(rng, f["msgs"]):
                     lines.append("verify %s %s %s %s %s" % (base + (tob(f["header"]), tl(m2)))); labels.append("msgs:" + kind); cnt("msgs:" + kind)
+                # EVERY position is bound: a byte change at each index, and a swap of each pair of distinct neighbours
+                # (a summation that batches / chunks the terms may leave a tail or a boundary element out)
+                if len(f["msgs"]) >= 4 and not f.get("_pos_done"):
+                    ms = f["msgs"]
+                    for i in range(len(ms)):
+                        m2 = list(ms); m2[i] = ms[i] + b"\x01"
+                        lines.append("verify %s %s %s %s %s" % (base + (tob(f["header"]), tl(m2)))); labels.append("msgs:byte-change@every-position"); cnt("msgs:every-position")
+                        if i + 1 < len(ms) and ms[i] != ms[i + 1]:
+                            m3 = list(ms); m3[i], m3[i + 1] = m3[i + 1], m3[i]
+                            lines.append("verify %s %s %s %s %s" % (base + (tob(f["header"]), tl(m3)))); labels.append("msgs:swap@every-position"); cnt("msgs:every-position")
                 for h2 in header_mutations(rng, f["header"]):
                     lines.append("verify %s %s %s %s %s" % (base + (tob(h2), tl(f["msgs"])))); labels.append("header"); cnt("header")
                 for sk2, pk2 in keys + okeys:
@@ -366,6 +376,13 @@ class C04:
                         # same messages claimed at other positions
                         add(pv_line(p, D=D2, dmsgs=dm), "moved-index")
                     add(pv_line(p, D=D[:-1], dmsgs=dm[:-1]), "dropped-disclosed")
+                    # a REPEATED disclosed index carrying one more (unsigned) message: at the end, in the middle, and a second
+                    # claim for the first position (the index list is de-duplicated by the verifier, the message list is not)
+                    forged = b"role: admin" + rb(rng, 3)
+                    add(pv_line(p, D=D + [D[-1]], dmsgs=dm + [forged]), "repeated-index-extra-message")
+                    add(pv_line(p, D=D + [D[0]], dmsgs=dm + [forged]), "repeated-index-extra-message")
+                    add(pv_line(p, D=[D[0]] + D, dmsgs=[forged] + dm), "repeated-index-extra-message")
+                    add(pv_line(p, D=D + [D[-1]], dmsgs=dm + [dm[-1]]), "repeated-index-repeated-message")
                     if len(D) >= 2 and dm[0] != dm[1]:
                         add(pv_line(p, dmsgs=[dm[1], dm[0]] + dm[2:]), "swapped-disclosed")
                 und = [i for i in range(L) if i not in D]
@@ -498,6 +515,14 @@ class C05:
             stats["pairs"] += len(tr)
             proofs = blind_proofs(S, tr, label="blindproofgen")
             S.run([bpv_line(p) for p in proofs], expect="ok", label="blind_proof_verify(blind_proof_gen)")
+            # absent arguments mean their defaults: L absent = 0, absent disclosed lists = empty lists
+            ab = []
+            for p in proofs:
+                if len(p["msgs"]) == 0 and not p["D"] and not p["Dc"]:
+                    ab.append("blindproofverify %s %s %s %s %s N N N N N" % (p["suite"], tb(p["pk"]), tb(p["proof"]), tob(p["header"]), tob(p["ph"])))
+                elif len(p["msgs"]) == 0 and not p["D"]:
+                    ab.append("blindproofverify %s %s %s %s %s N N %s N %s" % (p["suite"], tb(p["pk"]), tb(p["proof"]), tob(p["header"]), tob(p["ph"]), tl(pick(p["cm"] or [], p["Dc"])), ti(p["Dc"])))
+            if ab: S.run(ab, expect="ok", label="blind_proof_verify(absent arguments)")
             for p in proofs:
                 U = len(p["msgs"]) - len(p["D"]) + 1 + len(p["cm"] or []) - len(p["Dc"])
                 if len(p["proof"]) != 272 + 32 * U:
